@@ -63,6 +63,20 @@ FIXED = [
     {"files": {"main.py": "x = 1\ndef f():\n    global x\n    x = x + 1\n    def g():\n        return x\n    return g()\nprint(f(), x)\n"
                           "y = [x for x in range(3)]\nprint(y, x, f\"{x} x\", 'x')  # x\n"},
      "entry": "main.py"},
+    # a module whose first line defines something spelled like the module
+    {"files": {"ma.py": "def ma(x):\n    return x * 2\ny = 1\n", "main.py": "import ma\nprint(ma.ma(21), ma.y)\n"},
+     "entry": "main.py"},
+    # a class with __init__ and __call__: keywords at the constructor call and at a call of the instance
+    {"files": {"main.py": "class A:\n    def __init__(self, x):\n        self.x = x\n    def __call__(self, y):\n"
+                          "        return self.x * y\no = A(x=3)\np = A(x=1)\nprint(o(y=2), p(y=5))\n"},
+     "entry": "main.py"},
+    # keywords the callee swallows with **kw, spelled like visible variables
+    {"files": {"main.py": "def g(x, **kw):\n    print(sorted(kw.items()))\n    return x\nz = 4\nprint(g(1, z=z, y=z))\n"
+                          "def h():\n    y = 2\n    return g(y, y=y)\nprint(h())\n"},
+     "entry": "main.py"},
+    # the optional-import idiom: the name is bound by the import and by the fallback
+    {"files": {"mb.py": "x = 5\n", "main.py": "try:\n    from mb import x\nexcept ImportError:\n    x = 0\nprint(x + 1)\n"},
+     "entry": "main.py"},
     {"files": {"pk/__init__.py": "", "pk/mb.py": "z = 5\ndef g():\n    return z\n",
                "main.py": "import pk.mb\nfrom pk.mb import g\nfrom pk import mb\nprint(pk.mb.z, g(), mb.z)\n"},
      "entry": "main.py"},
@@ -431,6 +445,9 @@ def candidates_of(an, m, t, o, probs, model=False):
         yield "header-expression"
     if instance_attribute_hides_inherited([x.tr.tree for x in mods], name):
         yield "instance-attribute-hides-inherited"
+    if any(isinstance(c, ast.Call) and isinstance(c.func, ast.Call) and c.func.keywords and any(k.arg == name for k in c.keywords)
+           for x in mods for c in ast.walk(x.tr.tree)):
+        yield "keyword-of-call-result"
     # defects that were repaired in /repo (their replays live in corpus/C01): checked last, so that a failure
     # with a recorded cause is not attributed to them
     if any(kwarg_in_fstring(x.tr.tree, name) for x in mods):
@@ -451,11 +468,13 @@ EXPECTED = {
     "class-body-read-before-bind": {"alpha", "exec:NameError", "exec:TypeError", "exec:AttributeError", "exec:output"},
     "param-default-of-rebound-def": {"alpha", "exec:NameError", "exec:TypeError", "exec:UnboundLocalError"},
     "special-name-renamed": {"alpha", "exec:TypeError", "exec:AttributeError", "exec:output"},
-    "keyword-only-parameter": {"alpha", "exec:NameError", "exec:TypeError", "exec:UnboundLocalError"},
+    # ... or, when the body only reads the parameter, a homonymous outer variable captures the read: output differs
+    "keyword-only-parameter": {"alpha", "exec:NameError", "exec:TypeError", "exec:UnboundLocalError", "exec:output"},
     "class-body-attribute-lookup": {"alpha", "exec:NameError", "exec:AttributeError", "exec:TypeError", "exec:output"},
     "nonlocal-declaration": {"parse", "alpha", "exec:SyntaxError", "exec:NameError", "exec:UnboundLocalError", "exec:output"},
     "instance-attribute-hides-inherited": {"alpha", "exec:AttributeError"},
     "header-expression": {"alpha", "exec:NameError", "exec:UnboundLocalError", "exec:TypeError", "exec:output"},
+    "keyword-of-call-result": {"alpha", "exec:TypeError"},
 }
 
 
@@ -1050,8 +1069,8 @@ def run(ctx):
             ctx.count("collector_cases")
         ctx.traces += len(chunk)
     # ---- projects
-    n_main = ctx.scale(8, 60)
-    n_plus = ctx.scale(8, 48)
+    n_main = ctx.scale(7, 60)
+    n_plus = ctx.scale(7, 48)
     plan = [("fixed", dict(pr), ()) for pr in FIXED]
     for _ in range(n_main):
         plan.append(("main", None, ()))
